@@ -14,7 +14,7 @@ package udp
 //@      && u.Length == (8 + len(f.payload)) % 65536
 //@ pred ethhdr(e *layers.Ethernet, r *scan.Request) = fresh(e) && e.SrcMAC == r.SrcMAC && e.DstMAC == r.DstMAC && e.EthernetType == 2048
 //@ func (*PacketFiller).Fill
-//@   props C05 C11 C17 C01 C02 C19
+//@   props C05 C11 C17 C01 C02 C19 C07
 //@   observe rand.Intn, SetNetworkLayerForChecksum, gopacket.SerializeLayers
 //@   entry row cksumerr: [call rand.Intn(65535) as (id0) ; call rand.Intn(28232) as (sp0) ; call SetNetworkLayerForChecksum(bind_ck, bind_n) as (ce)] when ce != nil && ret == ce -> exit
 //@   entry row vpn:   [call rand.Intn(65535) as (id0) ; call rand.Intn(28232) as (sp0) ; call SetNetworkLayerForChecksum(bind_ck, bind_n) as (ce) ; call gopacket.SerializeLayers(packet, bind_opt, bind_ls) as (se)]
@@ -54,7 +54,7 @@ package udp
 //@   ensures len(f.payload) == len(payload) && fresh(backing(f.payload)) && (forall i int :: 0 <= i && i < len(payload) ==> f.payload[i] == payload[i])
 // constructor: defaults (TTL 64, protocol UDP, don't-fragment, no payload), then the options in order, nothing else
 //@ func NewPacketFiller
-//@   props C05 C01 C02 C11 C17 C19
+//@   props C05 C01 C02 C11 C17 C19 C07
 //@   observe o
 //@   entry row init:  [] -> loop 0
 //@   loop 0 row apply: [call o(bind_x)] when fresh(x) -> continue
@@ -62,22 +62,22 @@ package udp
 
 // C06 / C03: replies to UDP probes are ICMP messages: the method uses the ICMP processor (with this scan's name)
 //@ func NewScanMethod
-//@   props C06 C03 C14 C16
+//@   props C06 C03 C14 C16 C20
 //@   observe icmp.NewPacketProcessor
 //@   entry row build: [call icmp.NewPacketProcessor("udp", results, vpnMode) as (pp)] when ret.PacketSource == psrc && isptr(ret.Processor, icmp.PacketProcessor) && asptr(ret.Processor, icmp.PacketProcessor) == pp
 //@                       && isptr(ret.Resulter, icmp.PacketProcessor) && asptr(ret.Resulter, icmp.PacketProcessor) == pp -> exit
 
 // the scan method is the plain composition of its three parts: each role is forwarded unchanged
 //@ func (*ScanMethod).Packets
-//@   props C01 C07 C05 C11 C13 C16 C19
+//@   props C01 C07 C05 C11 C13 C16 C19 C12
 //@   observe Packets
 //@   entry row forward: [call Packets(recv.PacketSource, _, _) as (c)] when ret == c -> exit
 //@ func (*ScanMethod).ProcessPacketData
-//@   props C03 C06 C16 C14
+//@   props C03 C06 C16 C14 C20
 //@   observe ProcessPacketData
 //@   entry row forward: [call ProcessPacketData(recv.Processor, _, _) as (e)] when ret == e -> exit
 //@ func (*ScanMethod).Results
-//@   props C03 C14 C16 C06 C08 C20
+//@   props C03 C14 C16 C06 C08 C20 C09 C10 C11 C12
 //@   observe Results
 //@   entry row forward: [call Results(recv.Resulter) as (c)] when ret == c -> exit
 
